@@ -113,7 +113,7 @@ def run(run):
     run.rule = ("(a) token soups over a 110-atom wikitext alphabet (length 1-40); (b) grammar documents (sections, lists, rules, "
                 "fillers); (c) 1-3 random span mutations (delete/duplicate/insert/transplant) of the page strings used in the "
                 "repository's own parser tests; (d) nesting ladders to depth 100 for nine nestable constructs; (e) inputs "
-                "containing a placeholder character; (f) definition-list, link-trail and bracket shapes; each with and without pre_expand/expand_all; non-trivial = input has at "
+                "containing a placeholder character; (f) definition-list, link-trail and bracket shapes; (g) argument-bearing constructs closed by force while their first argument holds a node; each with and without pre_expand/expand_all; non-trivial = input has at "
                 "least 3 markup atoms; distinct by JSON hash")
     run.trusted = [
         "Coq 8.16.1 kernel; vm_compute evaluates Model.Tree.wf (the well-formedness predicate) on every returned tree",
@@ -189,6 +189,16 @@ def run(run):
               "''a'''b''c''' ", "{{lc:X}}", "{{PAGENAME}}", "{{#if:a|[[b]]c}}", "{{{1|[[b]]c}}}", "== [[h]]s ==\n", "text "]
     for _ in range(200 if quick else 3000):
         texts.append("".join(rng.choice(SHAPES) for _ in range(rng.randint(1, 5)))); klass.append("shapes")
+    # an argument-bearing construct that is closed by force (an end tag of an enclosing element or a rule inside it) while its
+    # first argument holds a node
+    for _ in range(250 if quick else 4000):
+        tag = rng.choice(["b", "i", "div", "span", "small", "center"])
+        op, cl = rng.choice([("[[", "]]"), ("{{", "}}"), ("{{{", "}}}"), ("[[File:", "]]"), ("[http://x.y/", "]")])
+        first = rng.choice(["", "a", "foo"]) + rng.choice(["{{x}}", "''b''", "{{{1}}}", "'''c'''", "<i>k</i>", "[[l]]", "{{x|y}}"]) + rng.choice(["", "z", ".png"])
+        more = rng.choice(["", "|y", "|thumb|<b>cap", "|k=v", " t"])
+        breaker = rng.choice(["</%s>" % tag, "\n----\n", "</%s>z" % tag, "\n== h ==\n", "\n|}\n", "</div>"])
+        texts.append(rng.choice(["", "* ", "x "]) + "<%s>" % tag + rng.choice(["", "t "]) + op + first + more + breaker + rng.choice(["", "w"]) + cl)
+        klass.append("forced")
     for t in ["a" + MAGIC + "b", "{{X" + MAGIC + "}}", "[[" + MAGIC + "]]", "<b>" + MAGIC, "* " + MAGIC + "\n"]:
         texts.append(t); klass.append("placeholder")
     jobs, owner = [], []
@@ -354,7 +364,7 @@ def stack_traces(run, texts, klass, quick):
     rng = run.rng
     cand = [i for i in range(len(texts)) if klass[i] != "placeholder" and len(texts[i]) <= 400
             and not any(0x10203D <= ord(ch) for ch in texts[i])]
-    keep = [i for i in cand if klass[i] in ("corpus", "ladder", "shapes") and len(texts[i]) <= 200]
+    keep = [i for i in cand if klass[i] in ("corpus", "ladder", "shapes", "forced") and len(texts[i]) <= 200]
     rest = [i for i in cand if i not in set(keep)]
     rng.shuffle(rest)
     sel = keep + rest[:(900 if quick else 20000)]
